@@ -16,11 +16,16 @@
    failing any validation of readJournalIndex (checksum, contiguity, root record at batchEnd) — the
    whole bootstrap result (hence the view) equals the one without an index; and read-only opens leave
    both files untouched for every index image ([ro_open_pure_index]).
-   Missing: the validated-prefix case (a genuine or stale index), which needs the compositionality of
-   the journal scan at offset [indexed] and the hypothesis that the cached lookups are what scanning
-   journal[0..indexed) yields; it is covered by the correspondence run only. *)
-From Coq Require Import NArith List Bool Lia.
-From Dolt Require Import Base.Str Gen.C04Consts C03.Model C03.Spec C03.Corr C04.Model C04.Spec.
+   The validated-prefix case (a genuine or stale index) is [index_transparent_validated] at the end of
+   this file: when the journal below [indexed] is a run of intact records, a root record starts at
+   [indexed], and the lookups the index supplied are the journal's own ranges (the hypothesis F1 shows
+   cannot be dropped), the view equals the index-free one; it rests on the compositionality of the
+   journal scan (C03 scan_app).  [own_lookups_agree] derives that hypothesis from "the lookups are, in
+   order, those of the chunk records" — what C03 index_stream_covers proves of the writer's index stream.
+   Still missing for the unconditional statement on genuine files: the byte-level round trip of the
+   index stream through parse_index (tied by the correspondence run only). *)
+From Coq Require Import NArith Arith List Bool Lia ZifyN ZifyNat ZifyBool.
+From Dolt Require Import Base.Str Gen.C04Consts C03.Model C03.Spec C03.Corr C03.Proofs C04.Model C04.Spec.
 Import ListNotations.
 Local Open Scope N_scope.
 
@@ -259,4 +264,194 @@ Theorem index_transparent_refuted :
     <> view_of_boot wcrc [h] (bootstrap_no_index wcrc w_bufsz true w_maxnovel j).
 Proof.
   exists w_swapped, w_journal, w_a1. vm_compute. discriminate.
+Qed.
+
+
+(* ------------------------------------------------------------------ *)
+(* the validated-prefix case: an index whose lookups are the journal's own ranges is transparent *)
+
+(* what the bootstrap callback accumulates: novel entries (most recent first) and the last root *)
+Fixpoint nvl (items : list (N * prec)) (acc : rmap) : rmap :=
+  match items with
+  | [] => acc
+  | (o, r) :: t =>
+    nvl t (if p_kind r =? kind_chunk
+           then (p_addr r, (o + (p_len r - (lenN (p_payload r) + 4)), lenN (p_payload r))) :: acc else acc)
+  end.
+Fixpoint rtl (items : list (N * prec)) (root : bytes) : bytes :=
+  match items with
+  | [] => root
+  | (o, r) :: t => rtl t (if p_kind r =? kind_chunk then root else p_addr r)
+  end.
+
+Lemma fold_apply_shape items : forall rg root,
+  fold_left apply_item items (rg, root) = ({| novel := nvl items (novel rg); cached := cached rg |}, rtl items root).
+Proof.
+  induction items as [|[o r] t IH]; intros rg root; [destruct rg; reflexivity|].
+  cbn [fold_left nvl rtl]. unfold apply_item at 2. destruct (p_kind r =? kind_chunk); rewrite IH; reflexivity.
+Qed.
+
+Lemma nvl_acc items : forall acc, nvl items acc = nvl items [] ++ acc.
+Proof.
+  induction items as [|[o r] t IH]; intros acc; [reflexivity|]. cbn [nvl].
+  destruct (p_kind r =? kind_chunk); [|apply IH]. rewrite IH, (IH [_]), <- app_assoc. reflexivity.
+Qed.
+
+Lemma nvl_app a : forall b acc, nvl (a ++ b) acc = nvl b (nvl a acc).
+Proof. induction a as [|[o r] t IH]; intros b acc; [reflexivity|]. cbn [app nvl]. apply IH. Qed.
+
+Lemma nvl_items_of rs : forall off acc, nvl (items_of off rs) acc = spec_ranges off rs acc.
+Proof.
+  induction rs as [|r rs IH]; intros off acc; [reflexivity|]. cbn [items_of nvl].
+  destruct r as [a p|ts a]; cbn [prec_of p_kind p_addr p_len p_payload wrec_len spec_ranges].
+  - change (kind_chunk =? kind_chunk) with true. cbv iota.
+    replace (off + (chunk_rec_len (lenN p) - (lenN p + 4))) with (off + chunk_payload_off)
+      by (unfold chunk_rec_len, chunk_payload_off; lia).
+    apply IH.
+  - change (kind_root =? kind_chunk) with false. cbv iota. apply IH.
+Qed.
+
+Lemma nvl_keys items : forall acc k v, In (k, v) (nvl items acc) ->
+  In k (map (fun it : N * prec => p_addr (snd it)) (filter (fun it : N * prec => p_kind (snd it) =? kind_chunk) items)) \/ In (k, v) acc.
+Proof.
+  induction items as [|[o r] t IH]; intros acc k v H; [right; exact H|]. cbn [nvl filter snd] in *.
+  destruct (p_kind r =? kind_chunk).
+  - destruct (IH _ k v H) as [H1|[H1|H1]]; [left; right; exact H1| |right; exact H1].
+    inversion H1; subst. left. left. reflexivity.
+  - exact (IH _ k v H).
+Qed.
+
+Lemma assoc_app k a : forall b, assoc k (a ++ b) = match assoc k a with Some x => Some x | None => assoc k b end.
+Proof. induction a as [|[k' v] a IH]; intros b; [reflexivity|]. cbn [app assoc]. destruct (beq_bytes k k'); [reflexivity|apply IH]. Qed.
+
+Definition map16 (m : rmap) : rmap := map (fun kv => (addr16 (fst kv), snd kv)) m.
+
+(* looking up by 16-byte prefix agrees with looking up by full address when the prefix tells h apart *)
+Lemma assoc_map16 h m : (forall k v, In (k, v) m -> addr16 k = addr16 h -> k = h) ->
+  assoc (addr16 h) (map16 m) = assoc h m.
+Proof.
+  induction m as [|[k v] m IH]; intros H; [reflexivity|]. cbn [map16 map assoc fst snd].
+  destruct (beq_bytes (addr16 h) (addr16 k)) eqn:E.
+  - apply beq_bytes_spec in E. rewrite (H k v (or_introl eq_refl) (eq_sym E)), beq_bytes_refl. reflexivity.
+  - destruct (beq_bytes h k) eqn:E2.
+    + apply beq_bytes_spec in E2. subst k. rewrite beq_bytes_refl in E. discriminate.
+    + apply IH. intros k0 v0 Hi. apply (H k0 v0). right. exact Hi.
+Qed.
+
+Lemma get_maybe_flatten h rg (b : bool) :
+  (forall k v, In (k, v) (novel rg) -> addr16 k = addr16 h -> k = h) ->
+  rng_get (if b then flatten rg else rg) h = rng_get rg h.
+Proof.
+  intros H. destruct b; [|reflexivity]. unfold rng_get, flatten. cbn [novel cached assoc].
+  fold (map16 (novel rg)). rewrite assoc_app, (assoc_map16 h _ H). reflexivity.
+Qed.
+
+Section Validated.
+  Variable crc : bytes -> N.
+  Variable bufsz : N.
+  Hypothesis crc_range : forall b, crc b < 4294967296.
+
+  (* index_transparent for a validated index (genuine or stale): the journal up to [indexed] is a run of intact
+     records, a root record starts at [indexed] (what peekRootHashAt checked), and — the hypothesis that finding
+     F1 shows cannot be dropped — the lookups the index supplied are the journal's own ranges: looking an address
+     up in them gives what scanning those records gives. *)
+  Theorem index_transparent_validated :
+    forall (can_write : bool) (max_novel : N) (known : list bytes) (ib j : bytes)
+           (indexed safe : N) (c : rmap) (rs : list wrec) (ts : N) (a tail2 : bytes),
+      load_index crc ib j = Some (indexed, c, safe) ->
+      j = enc_all crc rs ++ enc crc (WRoot ts a) ++ tail2 ->
+      Forall (wf_rec bufsz) rs -> wf_rec bufsz (WRoot ts a) ->
+      indexed = total_len rs ->
+      (forall h, In h known ->
+         assoc (addr16 h) c = assoc h (spec_ranges 0 rs [])     (* the index's ranges are the journal's own *)
+         /\ a16_distinct crc bufsz j h) ->
+      view_of_boot crc known (bootstrap_with_index crc bufsz can_write max_novel ib j)
+      = view_of_boot crc known (bootstrap_no_index crc bufsz can_write max_novel j).
+  Proof.
+    intros cw mn known ib j indexed safe c rs ts a tail2 Hload Hj Hrs Hroot Hidx Hknown.
+    set (root := WRoot ts a) in *.
+    assert (W1 : Forall (wf_rec bufsz) [root]) by (constructor; [exact Hroot|constructor]).
+    assert (Eroot : enc crc root ++ tail2 = enc_all crc [root] ++ tail2)
+      by (cbn [enc_all map concat]; rewrite app_nil_r; reflexivity).
+    (* the two scans *)
+    pose proof (scan_app crc bufsz crc_range kind_ok (kind_ok_wf bufsz) [root] indexed tail2 W1) as Sb.
+    pose proof (scan_app crc bufsz crc_range kind_ok (kind_ok_wf bufsz) rs 0 (enc crc root ++ tail2) Hrs) as Sa.
+    rewrite N.add_0_l, <- Hidx, Eroot, Sb in Sa. rewrite <- Eroot, <- Hj in Sa.
+    assert (Dj : dropN indexed j = enc_all crc [root] ++ tail2).
+    { rewrite Hj, Hidx, <- (lenN_enc_all crc bufsz crc_range rs Hrs), Eroot. apply dropN_app with (crc := crc); assumption. }
+    cbn [items_of] in Sa, Sb.
+    destruct (scan crc bufsz kind_ok (indexed + total_len [root]) tail2) as [[[items2 off] st] rest] eqn:S2.
+    cbn [prep] in Sa, Sb.
+    set (X1 := (indexed, prec_of root) :: items2) in *.
+    set (X0 := items_of 0 rs ++ X1) in *.
+    (* processJournalRecords with and without the index *)
+    assert (P1 : process crc bufsz kind_ok indexed j =
+                 match st with StErr | StFuel => PErr | StEOF => POk off X1
+                 | StRecovered => if data_loss_check crc bufsz rest then PDataLoss off else POk off X1 end).
+    { unfold process. rewrite Dj, Sb. cbn [app]. reflexivity. }
+    assert (P0 : process crc bufsz kind_ok 0 j =
+                 match st with StErr | StFuel => PErr | StEOF => POk off X0
+                 | StRecovered => if data_loss_check crc bufsz rest then PDataLoss off else POk off X0 end).
+    { unfold process. rewrite dropN_0, Sa. reflexivity. }
+    (* the successful case *)
+    assert (Main : process crc bufsz kind_ok indexed j = POk off X1 -> process crc bufsz kind_ok 0 j = POk off X0 ->
+                   view_of_boot crc known (bootstrap_from crc bufsz indexed {| novel := []; cached := c |} cw mn j)
+                   = view_of_boot crc known (bootstrap crc bufsz cw mn j)).
+    { intros Q1 Q0. unfold bootstrap, bootstrap_from. rewrite Q1, Q0, !fold_apply_shape. cbn [novel cached].
+      (* roots *)
+      assert (R : forall d, rtl X0 d = rtl X1 zero_hash).
+      { intros d. unfold X0. clear. revert d. generalize 0 as o. induction rs as [|r rs' IH]; intros o d.
+        - cbn [items_of app]. unfold X1. cbn [rtl prec_of p_kind p_addr root].
+          change (kind_root =? kind_chunk) with false. cbv iota. reflexivity.
+        - cbn [items_of app rtl]. apply IH. }
+      rewrite (R zero_hash).
+      (* novel maps *)
+      assert (N0 : nvl X0 [] = nvl X1 [] ++ spec_ranges 0 rs []).
+      { unfold X0. rewrite nvl_app, nvl_items_of, nvl_acc. reflexivity. }
+      set (rgW := {| novel := nvl X1 []; cached := c |}).
+      set (rg0 := {| novel := nvl X0 []; cached := [] |}).
+      unfold view_of_boot. cbn [b_err b_root b_off b_ranges b_file]. change (0 =? 0) with true. cbv iota.
+      f_equal. apply map_ext_in. intros h Hh. destruct (Hknown h Hh) as [Hown Hdist].
+      assert (K0 : forall k v, In (k, v) (nvl X0 []) -> addr16 k = addr16 h -> k = h).
+      { intros k v Hi. apply Hdist. unfold journal_chunk_addrs. rewrite Q0.
+        destruct (nvl_keys X0 [] k v Hi) as [H|[]]. exact H. }
+      assert (KW : forall k v, In (k, v) (novel rgW) -> addr16 k = addr16 h -> k = h).
+      { intros k v Hi. apply (K0 k v). rewrite N0. apply in_or_app. left. exact Hi. }
+      assert (G : rng_get (if cw && (mn <? rng_novel_count rgW) then flatten rgW else rgW) h
+                  = rng_get (if cw && (mn <? rng_novel_count rg0) then flatten rg0 else rg0) h).
+      { rewrite (get_maybe_flatten h rgW _ KW), (get_maybe_flatten h rg0 _ K0).
+        unfold rng_get, rgW, rg0. cbn [novel cached]. rewrite N0, assoc_app, Hown.
+        destruct (assoc h (nvl X1 [])); [reflexivity|]. destruct (assoc h (spec_ranges 0 rs [])); reflexivity. }
+      unfold look_of. cbn [b_ranges b_file b_off]. rewrite G. reflexivity. }
+    unfold bootstrap_with_index, bootstrap_no_index, index_state. rewrite Hload.
+    destruct st.
+    - exact (Main P1 P0).
+    - destruct (data_loss_check crc bufsz rest).
+      + unfold bootstrap, bootstrap_from. rewrite P1, P0. reflexivity.
+      + exact (Main P1 P0).
+    - unfold bootstrap, bootstrap_from. rewrite P1, P0. reflexivity.
+    - unfold bootstrap, bootstrap_from. rewrite P1, P0. reflexivity.
+  Qed.
+End Validated.
+
+(* "the lookups are the journal's own": if the lookups of the validated batches are, in order, exactly the lookups the
+   chunk records below [indexed] are entitled to (what C03's index_stream_covers proves of the writer's index
+   stream), then the cached map agrees with the journal's own range table on every address that its 16-byte
+   prefix tells apart. *)
+Definition entry3 (t : bytes * N * N) : bytes * (N * N) := let '(a, o, l) := t in (a, (o, l)).
+
+Lemma map16_spec rs : forall off acc,
+  map16 (spec_ranges off rs acc) = rev (map entry3 (rlookups off rs)) ++ map16 acc.
+Proof.
+  induction rs as [|r rs IH]; intros off acc; [reflexivity|]. destruct r as [a p|ts a]; cbn [spec_ranges rlookups].
+  - rewrite IH. cbn [map rev entry3 map16 fst snd]. rewrite <- app_assoc. reflexivity.
+  - apply IH.
+Qed.
+
+Lemma own_lookups_agree (bts : list batch) (rs : list wrec) (h : bytes) :
+  map (fun l => (lk_addr l, lk_off l, lk_len l)) (concat (map bt_lookups bts)) = rlookups 0 rs ->
+  (forall k v, In (k, v) (spec_ranges 0 rs []) -> addr16 k = addr16 h -> k = h) ->
+  assoc (addr16 h) (cached_of bts) = assoc h (spec_ranges 0 rs []).
+Proof.
+  intros Hl Hd. rewrite <- (assoc_map16 h _ Hd), (map16_spec rs 0 []), app_nil_r, <- Hl, map_map. reflexivity.
 Qed.
